@@ -178,7 +178,10 @@ fn analyze_storage_struct<'db>(
         db,
     )
     .intern(db);
-    let paths_data = &mut StorageStructMembers { name_to_paths: OrderedHashMap::default() };
+    let paths_data = &mut StorageStructMembers {
+        name_to_paths: OrderedHashMap::default(),
+        flat_structs_in_path: vec![],
+    };
 
     for (member_name, member) in members.iter() {
         let member_ast = member.id.stable_ptr(db).lookup(db);
@@ -228,6 +231,8 @@ fn analyze_storage_struct<'db>(
 struct StorageStructMembers<'db> {
     /// Maps the name in actual storage to the path in actual user code.
     name_to_paths: OrderedHashMap<SmolStrId<'db>, Vec<SmolStrId<'db>>>,
+    /// The structs of the flat members on the currently analyzed path.
+    flat_structs_in_path: Vec<StructId<'db>>,
 }
 
 impl<'db> StorageStructMembers<'db> {
@@ -288,9 +293,14 @@ fn member_analyze<'db>(
         user_data_path.pop();
         return;
     };
-    for (inner_member_name, inner_member) in
-        db.struct_members(member_struct.long(db).struct_id).unwrap().iter()
-    {
+    let member_struct_id = member_struct.long(db).struct_id;
+    // A struct that contains itself as a flat member has no finite set of paths - stop there.
+    if paths_data.flat_structs_in_path.contains(&member_struct_id) {
+        user_data_path.pop();
+        return;
+    }
+    paths_data.flat_structs_in_path.push(member_struct_id);
+    for (inner_member_name, inner_member) in db.struct_members(member_struct_id).unwrap().iter() {
         member_analyze(
             db,
             inner_member,
@@ -301,6 +311,7 @@ fn member_analyze<'db>(
             diagnostics,
         );
     }
+    paths_data.flat_structs_in_path.pop();
     user_data_path.pop();
 }
 
